@@ -101,6 +101,10 @@ def _worker(args):
     try:
         # resolvers / visitors deep in library recursion need head-room
         sys.setrecursionlimit(max(sys.getrecursionlimit(), 3000))
+        import warnings
+
+        # a task cancelled before its first step drops the coroutines it would have awaited: Python's notice, no oracle reads it
+        warnings.filterwarnings("ignore", message="coroutine .* was never awaited", category=RuntimeWarning)
         mod = importlib.import_module(modname)
         t0 = time.time()
         r = mod.run_shard(shard, tier)
